@@ -10,6 +10,7 @@ package main
 // Derived from the function's own parameter list; no annotation.
 
 import (
+	"go/token"
 	"go/types"
 	"os"
 	"fmt"
@@ -204,6 +205,33 @@ func (pc *pCtx) p9BlockingWaits(s *pSite) {
 						}
 					}
 				}
+				// whoever else may cancel it: before the wait, the awaited subscription is handed to a Subscription
+				// (Add / AddUnsubscribable release a late registration at once), not merely kept in a cell that a
+				// teardown reads - the teardown may have run before the cell was written
+				handed := false
+				for _, b2 := range fn.Blocks {
+					for _, i2 := range b2.Instrs {
+						c2, ok := i2.(*ssa.Call)
+						if !ok || !c2.Common().IsInvoke() || !precedes(c2, call) {
+							continue
+						}
+						m := c2.Common().Method.Name()
+						if m != "Add" && m != "AddUnsubscribable" {
+							continue
+						}
+						for _, a := range c2.Common().Args {
+							if derives(a, call.Common().Value, 0) || derives(call.Common().Value, a, 0) || sameLoad(a, call.Common().Value) {
+								handed = true
+							}
+						}
+					}
+				}
+				if refs := call.Common().Value.Referrers(); refs == nil || len(*refs) <= 1 {
+					handed = true // Subscribe(...).Wait(): nobody else ever sees it - that is the obligation below, on its own
+				}
+				pc.add(props, fmt.Sprintf("P9/%s/wait#%d-subscription-is-handed-to-a-subscription-before-the-wait", s.Name, n),
+					"a subscription awaited by a subscribe function or callback is registered with a Subscription before the wait (a late registration is released at once; a cell read by the teardown is not enough)", handed,
+					"the awaited subscription is not passed to Add / AddUnsubscribable before the wait", pc.pos(call.Pos()))
 				pc.add(props, fmt.Sprintf("P9/%s/wait#%d-can-be-cancelled-by-the-downstream", s.Name, n),
 					"a subscription awaited inside the subscribe function is registered with the destination before the wait, so that downstream termination releases it and the blocked Subscribe returns", registered,
 					"the awaited subscription is only known to the teardown the subscribe function returns after the wait", pc.pos(call.Pos()))
@@ -431,4 +459,23 @@ func (pc *pCtx) p12AtomicValue(s *pSite) {
 		pc.add(props, fmt.Sprintf("P12/%s/atomic-value:%s/stores-one-concrete-type", s.Name, cellName(cell)),
 			"every Store into one sync/atomic.Value brings a value of the same concrete type (a Store of another dynamic type panics)", ok, note, pc.pos(cell.Pos()))
 	}
+}
+
+// sameLoad: two values are the same value, or loads of the same cell.
+func sameLoad(a, b ssa.Value) bool {
+	if a == b {
+		return true
+	}
+	ua, ok1 := a.(*ssa.UnOp)
+	ub, ok2 := b.(*ssa.UnOp)
+	if ok1 && ok2 && ua.Op == token.MUL && ub.Op == token.MUL && ua.X == ub.X {
+		return true
+	}
+	if mi, ok := a.(*ssa.MakeInterface); ok {
+		return sameLoad(mi.X, b)
+	}
+	if ct, ok := a.(*ssa.ChangeInterface); ok {
+		return sameLoad(ct.X, b)
+	}
+	return false
 }
